@@ -1,4 +1,8 @@
+import SqlgrepModel.Sexp
+import SqlgrepModel.Codec
 import SqlgrepModel.Model.Value
+import SqlgrepModel.Model.Text
+import SqlgrepModel.Model.Token
 import SqlgrepModel.Lemmas.Order
 import SqlgrepModel.Lemmas.ValueOrder
 import SqlgrepModel.Props.C16
